@@ -87,8 +87,113 @@ def mk_or(*xs):
     return ('or', tuple(out))
 
 
+def mk_ite(c, a, b):
+    if c == TRUE:
+        return a
+    if c == FALSE:
+        return b
+    if a == b:
+        return a
+    return ('ite', c, a, b)
+
+
+def _num(t):
+    if t[0] == 'lit' and t[1] in ('int', 'float'):
+        return float(t[2])
+    return None
+
+
+def _empty_container(t) -> bool:
+    return (t[0] == 'list' and not t[1]) or (t[0] == 'dict' and not t[1]) or \
+        (t[0] == 'call' and t[1] in ('set', 'dict', 'list', 'tuple', 'frozenset') and not t[2])
+
+
+def simp(t):
+    """re-apply the constant folds after a substitution (bottom-up)."""
+    if not isinstance(t, tuple) or not t or not isinstance(t[0], str):
+        return t
+    k = t[0]
+    if k in ('const', 'lit', 'p', 'v', 'global'):
+        return t
+    if k in ('and', 'or'):
+        xs = [simp(x) for x in t[1]]
+        return mk_and(*xs) if k == 'and' else mk_or(*xs)
+    if k == 'not':
+        return mk_not(simp(t[1]))
+    if k in ('table', 'bf', 'out'):
+        return t
+    t = tuple(simp(x) if isinstance(x, tuple) and x and isinstance(x[0], str) else x for x in t)
+    if k == 'ite':
+        return mk_ite(t[1], t[2], t[3])
+    if k == 'len' and _empty_container(t[1]):
+        return lit(0)
+    if k == 'len' and t[1][0] == 'list':
+        return lit(len(t[1][1]))
+    if k in ('lt', 'le'):
+        a, b = _num(t[1]), _num(t[2])
+        if a is not None and b is not None:
+            return TRUE if (a < b if k == 'lt' else a <= b) else FALSE
+    if k == 'in' and _empty_container(t[2]):
+        return FALSE
+    if k == 'eq' and t[1][0] in ('const', 'lit') and t[2][0] in ('const', 'lit'):
+        return TRUE if t[1] == t[2] else FALSE
+    return t
+
+
+def _find_ite(t):
+    if not isinstance(t, tuple) or not t or not isinstance(t[0], str):
+        return None
+    if t[0] in ('table', 'bf', 'out', 'any', 'filtermap', 'first', 'dictcomp'):
+        return None       # binders: the condition may mention the bound variable
+    if t[0] == 'ite':
+        return t
+    for x in t[1:]:
+        r = _find_ite(x)
+        if r is not None:
+            return r
+    return None
+
+
+def _subst(t, old, new):
+    if t == old:
+        return new
+    if not isinstance(t, tuple) or not t:
+        return t
+    return tuple(_subst(x, old, new) if isinstance(x, tuple) else x for x in t)
+
+
+def lift_ite(f, depth=0):
+    """conditional values inside an atom are decided by the condition: A[ite(c,a,b)] == c&A[a] | ~c&A[b]"""
+    if f in (TRUE, FALSE) or depth > 6:
+        return f
+    if f[0] in ('and', 'or'):
+        xs = [lift_ite(x, depth) for x in f[1]]
+        return mk_and(*xs) if f[0] == 'and' else mk_or(*xs)
+    if f[0] == 'not':
+        return mk_not(lift_ite(f[1], depth))
+    if f[0] == 'bf':
+        return f
+    it = _find_ite(f)
+    if it is None:
+        return f
+    c = it[1]
+    fa = lift_ite(_truthy(simp(_subst(f, it, it[2]))), depth + 1)
+    fb = lift_ite(_truthy(simp(_subst(f, it, it[3]))), depth + 1)
+    return mk_or(mk_and(c, fa), mk_and(mk_not(c), fb))
+
+
+def _truthy(t):
+    if t[0] == 'const':
+        return TRUE if t[1] else FALSE
+    if t[0] == 'lit':
+        return FALSE if t[2] in ('0', '0.0', "''") else TRUE
+    if _empty_container(t):
+        return FALSE
+    return t
+
+
 def is_formula(t) -> bool:
-    return t[0] in ('and', 'or', 'not') or t in (TRUE, FALSE)
+    return t[0] in ('and', 'or', 'not', 'bf') or t in (TRUE, FALSE)
 
 
 def atoms_of(t, acc):
@@ -99,6 +204,9 @@ def atoms_of(t, acc):
         atoms_of(t[1], acc)
     elif t in (TRUE, FALSE):
         pass
+    elif t[0] == 'bf':
+        for x in t[1]:
+            atoms_of(x, acc)
     else:
         acc.add(t)
 
@@ -114,6 +222,11 @@ def ev(t, val) -> bool:
         return any(ev(x, val) for x in t[1])
     if t[0] == 'not':
         return not ev(t[1], val)
+    if t[0] == 'bf':
+        idx = 0
+        for a in t[1]:
+            idx = idx * 2 + (1 if ev(a, val) else 0)
+        return t[2][idx]
     return val[t]
 
 
@@ -222,6 +335,8 @@ class Extractor:
         if isinstance(e, ast.Subscript):
             base = self.expr(e.value, p, bound)
             if isinstance(e.slice, ast.Slice):
+                if e.slice.lower is None and e.slice.upper is None and e.slice.step is None:
+                    return base           # x[:] is a snapshot like list(x)
                 return ('slice', base)
             return ('item', base, self.expr(e.slice, p, bound))
         if isinstance(e, ast.UnaryOp) and isinstance(e.op, ast.Not):
@@ -245,7 +360,7 @@ class Extractor:
             b = self.expr(e.orelse, p, bound)
             if self.boolish(a) and self.boolish(b):
                 return mk_or(mk_and(c, self.truth(a)), mk_and(mk_not(c), self.truth(b)))
-            return ('ite', canon(c), canon(a), canon(b))
+            return mk_ite(canon(c), canon(a), canon(b))
         if isinstance(e, ast.Call):
             return self.call(e, p, bound)
         if isinstance(e, (ast.List, ast.Tuple)):
@@ -260,7 +375,31 @@ class Extractor:
         if isinstance(e, (ast.ListComp, ast.GeneratorExp, ast.SetComp)):
             return self.comp(e, p, bound)
         if isinstance(e, ast.JoinedStr):
-            return ('opaque-str',)
+            parts = []
+            for v in e.values:
+                if isinstance(v, ast.Constant):
+                    parts.append(lit(v.value))
+                elif isinstance(v, ast.FormattedValue):
+                    parts.append(canon(self.expr(v.value, p, bound)))
+            return ('fstr', tuple(parts))
+        if isinstance(e, ast.NamedExpr):
+            v = self.expr(e.value, p, bound)
+            p.env[e.target.id] = v
+            return v
+        if isinstance(e, ast.DictComp):
+            b2 = dict(bound)
+            gens = []
+            for gen in e.generators:
+                coll = self.expr(gen.iter, p, b2)
+                v = ('v', len(b2))
+                self.bind(gen.target, v, b2)
+                cond = mk_and(*[self.truth(self.expr(c, p, b2)) for c in gen.ifs])
+                gens.append((canon(coll), canon(cond)))
+            return ('dictcomp', tuple(gens), canon(self.expr(e.key, p, b2)), canon(self.expr(e.value, p, b2)))
+        if isinstance(e, ast.Starred):
+            return ('star', self.expr(e.value, p, bound))
+        if isinstance(e, ast.Lambda):
+            return ('lambda', ast.dump(e))
         if isinstance(e, ast.BinOp):
             l, r = self.expr(e.left, p, bound), self.expr(e.right, p, bound)
             if isinstance(e.op, ast.Add) and l[0] == 'lit' and r[0] == 'lit' and l[1] == 'str' and r[1] == 'str':
@@ -283,6 +422,12 @@ class Extractor:
             return TRUE if t[1] else FALSE
         if t[0] == 'lit':
             return FALSE if t[2] in ('0', '0.0', "''") else TRUE
+        if t[0] == 'first':
+            return ('any', t[1], t[2])      # the first match exists iff some element matches
+        if _empty_container(t):
+            return FALSE
+        if not is_formula(t) and _find_ite(t) is not None:
+            return lift_ite(t)
         return t
 
     def compare(self, op, a, b, rhs_ast):
@@ -294,7 +439,7 @@ class Extractor:
             if b[0] == 'list' and all(x[0] in ('const', 'lit') for x in b[1]):
                 f = mk_or(*[self.eq(a, x) for x in b[1]])
             else:
-                f = ('in', a, b)
+                f = lift_ite(simp(('in', a, b)))
             return f if isinstance(op, ast.In) else mk_not(f)
         k = CMP.get(type(op))
         if k is None:
@@ -302,11 +447,22 @@ class Extractor:
         # canonical direction: lt / le only
         if k in ('gt', 'ge'):
             a, b, k = b, a, FLIP[k]
-        return (k, a, b)
+        # integers: a <= n  ==  a < n+1 (canonical: lt with the larger bound)
+        nb = _num(b)
+        if k == 'le' and nb is not None and b[1] == 'int' and a[0] == 'len':
+            k, b = 'lt', lit(int(nb) + 1)
+        na = _num(a)
+        if k == 'lt' and na is not None and a[1] == 'int' and b[0] == 'len':
+            # n < len  ==  not (len < n+1)
+            return mk_not(lift_ite(simp(('lt', b, lit(int(na) + 1)))))
+        return lift_ite(simp((k, a, b)))
 
     def eq(self, a, b):
         if a == b:
             return TRUE
+        for x, y in ((a, b), (b, a)):
+            if x[0] == 'first' and y == NONE:
+                return mk_not(('any', x[1], x[2]))
         if a[0] in ('const', 'lit') and b[0] in ('const', 'lit'):
             if a[0] == 'lit' and b[0] == 'lit' and {a[1], b[1]} <= {'int', 'float'}:
                 return TRUE if float(a[2]) == float(b[2]) else FALSE
@@ -350,6 +506,18 @@ class Extractor:
                 return ('attr', args[0], name)
             if n == 'isinstance' and len(e.args) == 2:
                 return ('isinstance', args[0], ast.unparse(e.args[1]))
+            if n == 'next' and len(e.args) == 2 and isinstance(e.args[0], (ast.GeneratorExp, ast.ListComp)) \
+                    and isinstance(e.args[1], ast.Constant) and e.args[1].value is None \
+                    and len(e.args[0].generators) == 1:
+                g = e.args[0]
+                gen = g.generators[0]
+                if isinstance(gen.target, ast.Name) and isinstance(g.elt, ast.Name) and g.elt.id == gen.target.id:
+                    coll = self.expr(gen.iter, p, bound)
+                    v = ('v', len(bound))
+                    b2 = dict(bound)
+                    b2[gen.target.id] = v
+                    cond = mk_and(*[self.truth(self.expr(c, p, b2)) for c in gen.ifs])
+                    return ('first', canon(coll), canon(cond))
             if n in ('any', 'all') and len(e.args) == 1 and isinstance(e.args[0], (ast.GeneratorExp, ast.ListComp)):
                 g = e.args[0]
                 if len(g.generators) != 1:
@@ -377,7 +545,8 @@ class Extractor:
                 v = self.inline_value(fd, args, p)
                 if v is not None:
                     return v
-            return ('call', n, tuple(canon(a) for a in args))
+            kw = tuple(sorted((k.arg or '**', canon(self.expr(k.value, p, bound))) for k in e.keywords))
+            return ('call', n, tuple(canon(a) for a in args) + kw)
         if isinstance(fn, ast.Attribute):
             if isinstance(fn.value, ast.Name) and fn.value.id in IGNORED_CALL_BASES:
                 return ('opaque-log',)
@@ -387,13 +556,19 @@ class Extractor:
             recv = self.expr(fn.value, p, bound)
             if self.strip_copies and fn.attr == 'copy' and not args:
                 return recv
+            if fn.attr == 'get' and len(args) in (1, 2) and not e.keywords and fn.attr not in self.inline:
+                # d.get(k, default)  ==  d[k] if k in d else default
+                return mk_ite(('in', args[0], recv), ('item', recv, args[0]), args[1] if len(args) == 2 else NONE)
             m = self.inline.get(fn.attr)
             if m is not None:
                 v = self.inline_value(m, [recv] + args, p)
                 if v is not None:
                     return v
-            return ('mcall', fn.attr, recv, tuple(canon(a) for a in args))
-        raise Unsupported('call form')
+            kw = tuple(sorted((k.arg or '**', canon(self.expr(k.value, p, bound))) for k in e.keywords))
+            return ('mcall', fn.attr, recv, tuple(canon(a) for a in args) + kw)
+        callee = self.expr(fn, p, bound)
+        kw = tuple(sorted((k.arg or '**', canon(self.expr(k.value, p, bound))) for k in e.keywords))
+        return ('apply', canon(callee), tuple(canon(a) for a in args), kw)
 
     def bind(self, target, term, bound):
         if isinstance(target, ast.Name):
@@ -617,6 +792,26 @@ class Extractor:
                     pf.cond = mk_and(p.cond, mk_not(c))
                     return self.block(h.body, [pt], bound) + [pf]
             raise Unsupported('try statement')
+        if isinstance(st, ast.Delete):
+            for t in st.targets:
+                if isinstance(t, ast.Subscript):
+                    p.effects.append(('delitem', canon(self.expr(t.value, p, bound)), canon(self.expr(t.slice, p, bound))))
+                else:
+                    raise Unsupported('del target')
+            return [p]
+        if isinstance(st, ast.AugAssign):
+            cur = self.expr(st.target, p, bound)
+            val = ('binop', type(st.op).__name__, cur, self.expr(st.value, p, bound))
+            self.assign(st.target, val, p, bound)
+            return [p]
+        if isinstance(st, ast.With):
+            for it in st.items:
+                v = self.expr(it.context_expr, p, bound)
+                if it.optional_vars is not None:
+                    self.assign(it.optional_vars, ('with', canon(v)), p, bound)
+            return self.block(st.body, [p], bound)
+        if isinstance(st, ast.While):
+            return self.while_loop(st, p, bound)
         if isinstance(st, ast.Continue):
             p.effects.append(('continue',))
             p.done = True
@@ -675,6 +870,10 @@ class Extractor:
             tgt = self.expr(fn.value, p, bound)
             p.effects.append(('append', canon(tgt), canon(self.expr(c.args[0], p, bound))))
             return [p]
+        if isinstance(fn, ast.Attribute) and fn.attr == 'pop' and len(c.args) == 1 and not c.keywords:
+            # statement-level d.pop(k): same as del d[k]
+            p.effects.append(('delitem', canon(self.expr(fn.value, p, bound)), canon(self.expr(c.args[0], p, bound))))
+            return [p]
         if isinstance(fn, ast.Attribute) and fn.attr == 'extend' and len(c.args) == 1:
             tgt = self.expr(fn.value, p, bound)
             p.effects.append(('extend', canon(tgt), canon(self.expr(c.args[0], p, bound))))
@@ -699,6 +898,37 @@ class Extractor:
         p.effects.append(('do', canon(t)))
         return [p]
 
+    def while_loop(self, st: ast.While, p: Path, bound):
+        """`while cond: body` -> ('while', cond, body table).  The body is summarised once with the
+        loop-carried locals replaced by opaque loop variables (('w', name)): a canonical form, good for
+        equality with a reference written the same way, not a semantics of iteration."""
+        if st.orelse:
+            raise Unsupported('while-else')
+        carried = set()
+        for n in ast.walk(st):
+            if isinstance(n, ast.Name) and isinstance(n.ctx, ast.Store):
+                carried.add(n.id)
+            if isinstance(n, ast.Call) and isinstance(n.func, ast.Attribute) and isinstance(n.func.value, ast.Name) \
+                    and n.func.attr in ('append', 'extend', 'pop', 'add', 'remove', 'insert', 'update'):
+                carried.add(n.func.value.id)
+        sub = Path()
+        sub.env = dict(p.env)
+        sub.store = dict(p.store)
+        init = tuple(sorted((nm, canon(p.env[nm])) for nm in carried if nm in p.env))
+        for nm in carried:
+            sub.env[nm] = ('w', nm)
+        cond = self.truth(self.expr(st.test, sub, bound))
+        subpaths = self.block([s for s in st.body if not self.ignorable(s)], [sub], bound)
+        # rename carried locals canonically (by order of first appearance in the sorted init list)
+        table = canonical_table(subpaths, drop_env=True)
+        finals = []
+        for q in subpaths:
+            finals.append(tuple(sorted((nm, canon(q.env.get(nm, ('w', nm)))) for nm in carried)))
+        p.effects.append(('while', init, canon(cond), table, tuple(sorted(set(finals), key=repr))))
+        for nm in carried:
+            p.env[nm] = ('after-while', nm, getattr(st, 'lineno', 0) * 0)
+        return [p]
+
     def loop(self, st: ast.For, p: Path, bound):
         if st.orelse:
             raise Unsupported('for-else')
@@ -709,10 +939,31 @@ class Extractor:
             guard = it.args[0]
             it = it.args[1]
         coll = self.expr(it, p, bound)
+        if coll[0] == 'list' and 0 < len(coll[1]) <= 4 and guard is None \
+                and not any(isinstance(n_, (ast.Break, ast.Continue)) for s_ in st.body for n_ in ast.walk(s_)):
+            # for x in (a, b): body   ==   body[x:=a]; body[x:=b]
+            paths = [p]
+            for el in coll[1]:
+                new = []
+                for q in paths:
+                    if q.done:
+                        new.append(q)
+                        continue
+                    b3 = dict(bound)
+                    self.bind(st.target, el, b3)
+                    new.extend(self.block(st.body, [q], b3))
+                paths = new
+            return paths
         b2 = dict(bound)
         var = ('v', len(b2))
         self.bind(st.target, var, b2)
         body = [s for s in st.body if not self.ignorable(s)]
+        pre_guard = None
+        if coll[0] == 'filtermap' and len(coll[1]) == 1 and coll[2] == ('v', len(bound)):
+            # for x in [y for y in C if c(y)]: body   ==   for x in C: if c(x): body
+            # (the comprehension variable and the loop variable get the same de Bruijn level)
+            pre_guard = coll[1][0][1]
+            coll = coll[1][0][0]
         if guard is not None:
             # for x in filter(lambda y: c(y), C): body   ==   for x in C: if c(x): body
             b2[guard.args.args[0].arg] = var
@@ -721,13 +972,35 @@ class Extractor:
         sub = Path()
         sub.env = dict(p.env)
         sub.store = dict(p.store)
-        subpaths = self.block(body, [sub], b2)
+        # locals assigned in the body: a read before the assignment sees the previous iteration's value
+        stored = set()
+        for s_ in st.body:
+            for n_ in ast.walk(s_):
+                if isinstance(n_, ast.Name) and isinstance(n_.ctx, ast.Store):
+                    stored.add(n_.id)
+        tnames = {n_.id for n_ in ast.walk(st.target) if isinstance(n_, ast.Name)}
+        for nm in stored - tnames:
+            sub.env[nm] = ('carried', nm)
+        if pre_guard is not None:
+            skip = sub.clone()
+            skip.cond = mk_not(pre_guard) if is_formula(pre_guard) or True else skip.cond
+            sub.cond = pre_guard
+            subpaths = self.block(body, [sub], b2) + [skip]
+        else:
+            subpaths = self.block(body, [sub], b2)
         returning = [q for q in subpaths if q.done and not any(e[0] == 'continue' for e in q.effects)]
         effectful = [q for q in subpaths if [e for e in q.effects if e[0] != 'continue']]
         if returning and not effectful:
             out = []
             rest_cond = p.cond
             # exists v in coll: cond_i(v) -> return r_i   (first match wins; conditions disjoint)
+            if len(returning) > 1:
+                # several exits: the first element satisfying ANY exit condition decides; keep it as one
+                # search term over the disjunction, the outcome being a function of the element found
+                table = canonical_table(subpaths, drop_env=True)
+                pr = p.clone()
+                pr.effects.append(('search', canon(coll), table))
+                return [pr]
             for q in returning:
                 pr = p.clone()
                 ex = ('any', canon(coll), canon(q.cond))
@@ -737,17 +1010,17 @@ class Extractor:
                 pr.raised = q.raised
                 out.append(pr)
                 rest_cond = mk_and(rest_cond, mk_not(ex))
-            if len(returning) > 1:
-                raise Unsupported('several exits in one search loop')
             pf = p.clone()
             pf.cond = rest_cond
             out.append(pf)
             return out
-        if returning:
-            raise Unsupported('loop with both effects and returns')
-        # per-element effect loop: canonical sub-table
+        # per-element effect loop (possibly with early exits inside): canonical sub-table; rows that
+        # return / raise keep their return term, so an exit inside the loop is part of the table
         table = canonical_table(subpaths, drop_env=True)
-        p.effects.append(('foreach', canon(coll), table))
+        p.effects.append(('foreach-exit' if returning else 'foreach', canon(coll), table))
+        for nm in stored - tnames:
+            # after the loop the local holds whatever the last iteration left (or the value before)
+            p.env[nm] = ('after-loop', nm, canon(coll), table)
         return [p]
 
 
@@ -813,7 +1086,25 @@ def outcome(q: Path):
             effs.append(e)
     sets = tuple(sorted(((loc, v) for loc, v in final.items()
                          if v != ('attr', loc[0], loc[1])), key=repr))
-    return ('out', sets, tuple(effs), canon(q.ret) if q.ret is not None else ('fall',))
+    # primitive container effects on pairwise distinct targets commute: sort each maximal run of them
+    prim = ('setitem', 'append', 'extend', 'delitem')
+    out, run = [], []
+
+    def flush():
+        targets = [(e[1], e[2]) if e[0] in ('setitem', 'delitem') else (e[1],) for e in run]
+        if len(set(map(repr, targets))) == len(targets):
+            out.extend(sorted(run, key=repr))
+        else:
+            out.extend(run)
+        run.clear()
+    for e in effs:
+        if e[0] in prim:
+            run.append(e)
+        else:
+            flush()
+            out.append(e)
+    flush()
+    return ('out', sets, tuple(out), canon(q.ret) if q.ret is not None else NONE)
 
 
 def table_of(fnode, inline=None, strip_copies=False):
@@ -944,3 +1235,76 @@ def names_in(t, acc):
     for x in t[1:]:
         if isinstance(x, tuple):
             names_in(x, acc)
+
+
+def opaque_names(t, acc):
+    """names of calls that were NOT expanded (functions / methods whose body the table does not see)
+    and of module globals: the part of a table's vocabulary that can hide arbitrary behaviour."""
+    if not isinstance(t, tuple) or not t:
+        return
+    k = t[0]
+    if not isinstance(k, str):
+        for x in t:
+            opaque_names(x, acc)
+        return
+    if k == 'call':
+        if t[1] not in KNOWN_BUILTINS:
+            acc.add(t[1] + '()')
+    elif k == 'mcall':
+        if t[1] not in KNOWN_METHODS:
+            acc.add('.' + t[1] + '()')
+    elif k == 'global':
+        acc.add(t[1])
+    elif k in ('const', 'lit'):
+        return
+    for x in t[1:]:
+        if isinstance(x, tuple):
+            opaque_names(x, acc)
+
+
+KNOWN_BUILTINS = {'set', 'dict', 'list', 'tuple', 'frozenset', 'str', 'int', 'float', 'len', 'sorted', 'min', 'max',
+                  'sum', 'abs', 'round', 'next', 'iter', 'range', 'enumerate', 'zip', 'map', 'filter', 'getattr',
+                  'hasattr', 'isinstance', 'bool', 'id', 'repr', 'type', 'reversed', 'any', 'all'}
+KNOWN_METHODS = {'get', 'keys', 'values', 'items', 'add', 'append', 'extend', 'remove', 'pop', 'discard', 'update',
+                 'copy', 'setdefault', 'index', 'count', 'startswith', 'endswith', 'split', 'strip', 'join',
+                 'lower', 'upper', 'format', 'insert', 'clear', 'sort', 'reverse', 'intersection', 'union',
+                 'difference', 'isdigit'}
+
+
+IMPRECISE = {'after-loop', 'after-while', 'while', 'w', 'apply', 'lambda', 'with', 'search', 'opaque', 'slice'}
+
+
+def _root(t):
+    while isinstance(t, tuple) and t and t[0] in ('attr', 'item'):
+        t = t[1]
+    return t
+
+
+def _fresh_container(t) -> bool:
+    return isinstance(t, tuple) and bool(t) and (
+        t[0] in ('list', 'dict', 'dictcomp', 'filtermap') or
+        (t[0] == 'call' and t[1] in ('set', 'dict', 'list', 'tuple', 'frozenset', 'defaultdict', 'Counter')))
+
+
+def imprecise_kinds(t, acc):
+    """constructs the table language only names but does not interpret: state left behind by a loop,
+    while loops, dynamic calls, and mutation of a container created locally (its identity and
+    contents are not modelled)."""
+    if not isinstance(t, tuple) or not t:
+        return
+    if isinstance(t[0], str):
+        if t[0] in IMPRECISE:
+            acc.add(t[0])
+        if t[0] in ('setitem', 'append', 'extend', 'delitem') and len(t) > 1 and _fresh_container(_root(t[1])):
+            acc.add('local-container-state')
+        if t[0] in ('const', 'lit'):
+            return
+    for x in t:
+        if isinstance(x, tuple):
+            imprecise_kinds(x, acc)
+
+
+def imprecise(t) -> bool:
+    acc = set()
+    imprecise_kinds(t, acc)
+    return bool(acc)
